@@ -710,6 +710,15 @@ namespace c14
         static const char *n[] = {"push_back", "append_operator", "clear", "copy_assign", "default_ctor", "copy_ctor", "ctor_c_string", "ctor_pointer_length", "find", "split"};
         return n[k];
     }
+    // characters: 'a', 'b' and the 0 byte (index 2): a string with an embedded 0 is not a C string
+    inline char chr_of(int a) { return a == 2 ? '\0' : (char)('a' + a); }
+    inline string printable(const string &s)
+    {
+        string r;
+        for (char c : s)
+            r += c ? string(1, c) : string("\\0");
+        return r;
+    }
     // Tr: template<size_t N> using str; template<class T,size_t N> using vec; has_ptr_len, has_clear, has_append, has_find_split
     template <class Tr, size_t N> struct SSModel : mc::Model
     {
@@ -772,6 +781,34 @@ namespace c14
                         ops.push_back({S_SPLIT, x, cfg, 0});
                 }
             }
+            // appended after everything else (indices above never change): the 0 byte as a character, and
+            // (pointer,length) arguments that contain it
+            size_t first_zero_str = strs.size();
+            for (size_t i = 0; i < first_zero_str; i++)
+                if (!strs[i].empty() && strs[i].size() <= M)
+                {
+                    // every string over {a,b} with each single 'b' replaced by 0 would be many: take the
+                    // strings over {a} U {0} instead: replace every 'b' by the 0 byte
+                    string z = strs[i];
+                    bool has = false;
+                    for (char &c : z)
+                        if (c == 'b')
+                        {
+                            c = 0;
+                            has = true;
+                        }
+                    if (has)
+                        strs.push_back(z);
+                }
+            for (int x = 0; x < 2; x++)
+            {
+                ops.push_back({S_PUSH_BACK, x, 2, 0});
+                if (Tr::has_append)
+                    ops.push_back({S_APPEND_OP, x, 2, 0});
+                if (Tr::has_ptr_len)
+                    for (size_t i = first_zero_str; i < strs.size(); i++)
+                        ops.push_back({S_CTOR_PTR_LEN, x, (int)i, 0});
+            }
             t->names.resize(ops.size());
             return t;
         }
@@ -803,9 +840,9 @@ namespace c14
             switch (p.kind)
             {
             case S_PUSH_BACK:
-                return mc::fmt("%s.push_back('%c')", X, 'a' + p.a);
+                return mc::fmt("%s.push_back('%s')", X, printable(string(1, chr_of(p.a))).c_str());
             case S_APPEND_OP:
-                return mc::fmt("%s += '%c'", X, 'a' + p.a);
+                return mc::fmt("%s += '%s'", X, printable(string(1, chr_of(p.a))).c_str());
             case S_CLEAR:
                 return mc::fmt("%s.clear()", X);
             case S_COPY_ASSIGN:
@@ -817,7 +854,7 @@ namespace c14
             case S_CTOR_CSTR:
                 return mc::fmt("new(%s) static_string<%zu>(\"%s\")", X, N, strs[p.a].c_str());
             case S_CTOR_PTR_LEN:
-                return mc::fmt("new(%s) static_string<%zu>(\"%s\", %zu)", X, N, strs[p.a].c_str(), strs[p.a].size());
+                return mc::fmt("new(%s) static_string<%zu>(\"%s\", %zu)", X, N, printable(strs[p.a]).c_str(), strs[p.a].size());
             case S_FIND:
                 return mc::fmt("%s.find(\"%s\", %d)", X, strs[p.a].c_str(), p.b);
             case S_SPLIT:
@@ -882,7 +919,7 @@ namespace c14
                         return;
                     }
                     string w = want[k].substr(0, S);
-                    if (string(out[k].c_str()) != w)
+                    if (string(out[k].c_str(), out[k].size()) != w)
                         bad(op, "pieces", mc::fmt("split<%zu,%zu> of \"%s\": piece %zu is \"%s\", expected \"%s\"", V, S, r.c_str(), k, out[k].c_str(), w.c_str()));
                 }
             }
@@ -909,11 +946,11 @@ namespace c14
                 if (rx.size() == N)
                     mc::nontrivial();
                 if (p.kind == S_PUSH_BACK)
-                    X.push_back((char)('a' + p.a));
+                    X.push_back(chr_of(p.a));
                 else if constexpr (Tr::has_append)
-                    X += (char)('a' + p.a);
+                    X += chr_of(p.a);
                 if (rx.size() < N)
-                    rx += (char)('a' + p.a);
+                    rx += chr_of(p.a);
                 break;
             case S_CLEAR:
                 if constexpr (Tr::has_clear)
